@@ -147,3 +147,13 @@ check("C04",
       "ratio-defined chop only in the thorough tier",
       "symbolic execution of the real Python code with z3 (symx), independent decoding oracle, concrete replay",
       "DESIGN.md 4/C04")
+check("C15",
+      "Bounded symbolic execution of SketchSmoother/MeshSmoother (fix_indexes, fix_points, smooth, backport), "
+      "QuadGrid.from_sketch/HexGrid.from_mesh, GridBase binding, Junction.is_boundary/add_neighbour, CellBase.boundary/"
+      "add_neighbour and MappedSketch.positions with all point positions free symbolic reals and the fixed set chosen by "
+      "the solver, on structured, L-shaped and disk quad maps and two hexahedral assemblies. The harness derives boundary "
+      "and edge-neighbours from connectivity alone and recomputes the sweep; z3 shows unmoved boundary/fixed points, "
+      "averages, fix-point, unique regular lattice, consistent copy-back.",
+      "maps up to 9 (thorough 12) faces, iterations <= 2 (3); sweep order = junction index order; convergence rate outside",
+      "symbolic execution of the real Python code with z3 (symx), linear real arithmetic, concrete replay",
+      "DESIGN.md 4/C15")
